@@ -3,7 +3,7 @@
    I  = goja's baseObject (object.go / value.go / builtin_object.go) transcribed:
         valueProperty records with the bare-Value shortcut, _defineOwnProperty's decision tree,
         setOwn/setForeign per key kind, _delete, propNames + lastSortedPropLen + idxPropCount.
-   The record [fixes] switches individual one-line repairs on; [fx_cur] is the current tree. *)
+   I follows the current tree (all six C04 findings are repaired in /repo). *)
 From Coq Require Import List Arith NArith Bool.
 Import ListNotations.
 
@@ -335,18 +335,6 @@ Definition srun (h : heap) (ops : list op) : heap := fold_left (fun h o => fst (
 (* ============================================================================================ *)
 (* I: goja                                                                                      *)
 
-Record fixes := mkFixes {
-  fix_f1 : bool;   (* object.go:681  test IsDataDescriptor (Value or Writable) instead of Value only *)
-  fix_n1 : bool;   (* object.go:729  reset writable when a getter/setter is installed *)
-  fix_n2 : bool;   (* object.go:681  test Getter/Setter presence instead of getterObj/setterObj != nil *)
-  fix_n3 : bool;   (* object.go:725  clear getterFunc/setterFunc when the property becomes a data property *)
-  fix_f2 : bool    (* object.go:625  setForeignSym: compare receiver with proto as Str/Idx do *)
-}.
-Definition fx_none := mkFixes false false false false false.   (* the tree before 7dd46dd / 3750984 / 8a03683 *)
-Definition fx_all := mkFixes true true true true true.
-(* the current tree: F1 (7dd46dd), F2 (3750984) and N2 (8a03683) are repaired in /repo; N1 and N3 are open *)
-Definition fx_cur := mkFixes true false true false true.
-
 (* value.go: valueProperty *)
 Record vprop := mkVP {
   vp_value : option val;
@@ -379,8 +367,8 @@ Definition oiprop_wf (o : option iprop) : bool := match o with None => true | So
 
 Definition fn_of (g : option (option nat)) : option nat := match g with Some (Some f) => Some f | _ => None end.
 
-(* object.go:650 _defineOwnProperty; None = Reject / not extensible *)
-Definition GojaDefine (fx : fixes) (ext : bool) (ev : option iprop) (d : desc) : option iprop :=
+(* object.go:650 _defineOwnProperty (tree after commits 7dd46dd, 8a03683, 4561dbf); None = Reject / not extensible *)
+Definition GojaDefine (ext : bool) (ev : option iprop) (d : desc) : option iprop :=
   let getterObj := fn_of (d_get d) in
   let setterObj := fn_of (d_set d) in
   let checked : option vprop :=
@@ -389,9 +377,8 @@ Definition GojaDefine (fx : fixes) (ext : bool) (ev : option iprop) (d : desc) :
     | Some e0 =>
         let ex := match e0 with IProp p => p | IBare v => vp_of_bare v end in
         if negb (vp_configurable ex) && (is_true (d_conf d) || differs (d_enum d) (vp_enumerable ex)) then None
-        else if (vp_accessor ex && (isSome (d_value d) || (fix_f1 fx && isSome (d_writable d))))
-                || (negb (vp_accessor ex) &&
-                    (if fix_n2 fx then is_acc_desc d else isSome getterObj || isSome setterObj))
+        else if (vp_accessor ex && (isSome (d_value d) || isSome (d_writable d)))
+                || (negb (vp_accessor ex) && (isSome (d_get d) || isSome (d_set d)))
         then (if negb (vp_configurable ex) then None else Some ex)
         else if negb (vp_accessor ex)
         then (if negb (vp_configurable ex) && negb (vp_writable ex) &&
@@ -409,41 +396,35 @@ Definition GojaDefine (fx : fixes) (ext : bool) (ev : option iprop) (d : desc) :
   match checked with
   | None => None
   | Some ex =>
-      match d_value d with
-      | Some v =>
-          if is_true (d_writable d) && is_true (d_enum d) && is_true (d_conf d) then Some (IBare v)
-          else
-            let w := od (d_writable d) (vp_writable ex) in
-            let e := od (d_enum d) (vp_enumerable ex) in
-            let c := od (d_conf d) (vp_configurable ex) in
-            (* value set, accessor cleared; then getter/setter (only for an ill-formed descriptor) *)
-            let p1 := mkVP (Some v) w c e false None None in
-            let p2 := match d_get d with
-                      | Some _ => mkVP None (if fix_n1 fx then false else vp_writable p1) c e true getterObj (vp_setter p1)
-                      | None => p1 end in
-            let p3 := match d_set d with
-                      | Some _ => mkVP None (if fix_n1 fx then false else vp_writable p2) c e true (vp_getter p2) setterObj
-                      | None => p2 end in
-            Some (IProp p3)
-      | None =>
-          let w := od (d_writable d) (vp_writable ex) in
-          let e := od (d_enum d) (vp_enumerable ex) in
-          let c := od (d_conf d) (vp_configurable ex) in
-          let p1 := if isSome (d_writable d)
-                    then mkVP (vp_value ex) w c e false
-                              (if fix_n3 fx then None else vp_getter ex) (if fix_n3 fx then None else vp_setter ex)
-                    else mkVP (vp_value ex) w c e (vp_accessor ex) (vp_getter ex) (vp_setter ex) in
-          let p2 := match d_get d with
-                    | Some _ => mkVP None (if fix_n1 fx then false else vp_writable p1) c e true getterObj (vp_setter p1)
-                    | None => p1 end in
-          let p3 := match d_set d with
-                    | Some _ => mkVP None (if fix_n1 fx then false else vp_writable p2) c e true (vp_getter p2) setterObj
-                    | None => p2 end in
-          let p4 := if negb (vp_accessor p3) && negb (isSome (vp_value p3))
-                    then mkVP (Some VUndef) (vp_writable p3) c e false (vp_getter p3) (vp_setter p3)
-                    else p3 in
-          Some (IProp p4)
-      end
+      if is_true (d_writable d) && is_true (d_enum d) && is_true (d_conf d) && isSome (d_value d)
+      then Some (IBare (od (d_value d) VUndef))
+      else
+        let w := od (d_writable d) (vp_writable ex) in
+        let e := od (d_enum d) (vp_enumerable ex) in
+        let c := od (d_conf d) (vp_configurable ex) in
+        (* if descr.Value != nil { existing.value = descr.Value } *)
+        let p1 := mkVP (match d_value d with Some v => Some v | None => vp_value ex end) w c e
+                       (vp_accessor ex) (vp_getter ex) (vp_setter ex) in
+        (* if descr.Value != nil || descr.Writable != FLAG_NOT_SET { accessor -> data ...; getter/setter = nil } *)
+        let p2 := if isSome (d_value d) || isSome (d_writable d)
+                  then mkVP (vp_value p1)
+                            (if vp_accessor p1 && negb (isSome (d_writable d)) then false else vp_writable p1)
+                            c e false None None
+                  else p1 in
+        (* if descr.Getter != nil || descr.Setter != nil { value = nil; writable = false; accessor = true } *)
+        let p3 := if isSome (d_get d) || isSome (d_set d)
+                  then mkVP None false c e true (vp_getter p2) (vp_setter p2)
+                  else p2 in
+        let p4 := match d_get d with
+                  | Some _ => mkVP (vp_value p3) (vp_writable p3) c e (vp_accessor p3) getterObj (vp_setter p3)
+                  | None => p3 end in
+        let p5 := match d_set d with
+                  | Some _ => mkVP (vp_value p4) (vp_writable p4) c e (vp_accessor p4) (vp_getter p4) setterObj
+                  | None => p4 end in
+        let p6 := if negb (vp_accessor p5) && negb (isSome (vp_value p5))
+                  then mkVP (Some VUndef) (vp_writable p5) c e false (vp_getter p5) (vp_setter p5)
+                  else p5 in
+        Some (IProp p6)
   end.
 
 (* ---- own keys: propNames with lazy ordering (object.go:1310 ensurePropOrder / fixPropOrder) ---- *)
@@ -532,12 +513,12 @@ Definition i_store_new (k : key) (v : iprop) (o : iobj) : iobj :=
   else mkIObj (i_proto o) (i_ext o) (put k v (i_vals o)) (names_add k (i_names o)) (i_syms o).
 
 (* defineOwnPropertyStr / defineOwnPropertySym *)
-Definition goja_checked (fx : fixes) (ext : bool) (ev : option iprop) (d : desc) : option iprop :=
-  if desc_wf d then GojaDefine fx ext ev d else None.      (* builtin_object.go:196 toPropertyDescriptor *)
-Definition i_define_ok (fx : fixes) (k : key) (d : desc) (o : iobj) : bool :=
-  isSome (goja_checked fx (i_ext o) (i_getown o k) d).
-Definition i_define_obj (fx : fixes) (k : key) (d : desc) (o : iobj) : iobj :=
-  match goja_checked fx (i_ext o) (i_getown o k) d with
+Definition goja_checked (ext : bool) (ev : option iprop) (d : desc) : option iprop :=
+  if desc_wf d then GojaDefine ext ev d else None.      (* builtin_object.go:196 toPropertyDescriptor *)
+Definition i_define_ok (k : key) (d : desc) (o : iobj) : bool :=
+  isSome (goja_checked (i_ext o) (i_getown o k) d).
+Definition i_define_obj (k : key) (d : desc) (o : iobj) : iobj :=
+  match goja_checked (i_ext o) (i_getown o k) d with
   | None => o
   | Some v => match i_getown o k with
               | None => i_store_new k v o
@@ -613,7 +594,7 @@ Definition i_prop_set (h : iheap) (o : nat) (k : key) (p : vprop) (this : nat) (
 
 (* setOwnStr/setOwnSym (own = true) and setForeignStr/Idx/Sym (own = false, receiver r).
    Result: (heap, result, handled, events). *)
-Fixpoint i_setwalk (fuel : nat) (fx : fixes) (h : iheap) (own : bool) (o : nat) (k : key) (num : bool)
+Fixpoint i_setwalk (fuel : nat) (h : iheap) (own : bool) (o : nat) (k : key) (num : bool)
          (v : val) (r : nat) : iheap * bool * bool * list event :=
   match fuel with
   | 0 => (h, false, true, [])
@@ -624,7 +605,7 @@ Fixpoint i_setwalk (fuel : nat) (fx : fixes) (h : iheap) (own : bool) (o : nat) 
         | None =>
             let '(h1, res, handled, ev) :=
               match i_proto ob with
-              | Some p => i_setwalk f fx h false p k false v o
+              | Some p => i_setwalk f h false p k false v o
               | None => (h, false, false, [])
               end in
             if handled then (h1, res, true, ev)
@@ -652,22 +633,22 @@ Fixpoint i_setwalk (fuel : nat) (fx : fixes) (h : iheap) (own : bool) (o : nat) 
             match i_proto ob0 with
             | None => (h0, false, false, [])
             | Some p =>
-                let cont := if is_sym k && negb (fix_f2 fx) then negb (Nat.eqb r o) else negb (Nat.eqb r p) in
+                let cont := negb (Nat.eqb r p) in
                 (* _setForeignIdx keeps the numeric key; setForeignStr(name.string()) loses it *)
-                if cont then i_setwalk f fx h0 false p k skip v r
-                else let '(h1, res, _, ev) := i_setwalk f fx h0 true p k false v p in (h1, res, true, ev)
+                if cont then i_setwalk f h0 false p k skip v r
+                else let '(h1, res, _, ev) := i_setwalk f h0 true p k false v p in (h1, res, true, ev)
             end
         end
   end.
 
 (* Object.setStr / setIdx / setSym *)
-Definition i_set (fx : fixes) (h : iheap) (o : nat) (k : key) (num : bool) (v : val) (r : nat)
+Definition i_set (h : iheap) (o : nat) (k : key) (num : bool) (v : val) (r : nat)
   : iheap * bool * list event :=
   let fuel := S (S (length h)) in
   if Nat.eqb r o then
-    let '(h1, res, _, ev) := i_setwalk fuel fx h true o k num v o in (h1, res, ev)
+    let '(h1, res, _, ev) := i_setwalk fuel h true o k num v o in (h1, res, ev)
   else
-    let '(h1, res, handled, ev) := i_setwalk fuel fx h false o k num v r in
+    let '(h1, res, handled, ev) := i_setwalk fuel h false o k num v r in
     if handled then (h1, res, ev)
     else
       let rob := ihget h1 r in
@@ -675,11 +656,11 @@ Definition i_set (fx : fixes) (h : iheap) (o : nat) (k : key) (num : bool) (v : 
       | Some (IProp p) =>
           if vp_accessor p then (h1, false, ev)
           else if negb (vp_writable p) then (h1, false, ev)
-          else (iupd h1 r (i_define_obj fx k (d_value_only v)), i_define_ok fx k (d_value_only v) rob, ev)
+          else (iupd h1 r (i_define_obj k (d_value_only v)), i_define_ok k (d_value_only v) rob, ev)
       | Some (IBare _) =>
-          (iupd h1 r (i_define_obj fx k (d_value_only v)), i_define_ok fx k (d_value_only v) rob, ev)
+          (iupd h1 r (i_define_obj k (d_value_only v)), i_define_ok k (d_value_only v) rob, ev)
       | None =>
-          (iupd h1 r (i_define_obj fx k (d_create v)), i_define_ok fx k (d_create v) rob, ev)
+          (iupd h1 r (i_define_obj k (d_create v)), i_define_ok k (d_create v) rob, ev)
       end.
 
 (* baseObject.setProto *)
@@ -700,24 +681,24 @@ Definition i_setproto (h : iheap) (o : nat) (p : option nat) : iheap * bool :=
 
 (* builtin_object.go: object_seal / object_freeze iterate iterateKeys() and patch valueProperties
    in place; bare values go through defineOwnProperty *)
-Definition i_seal_key (fx : fixes) (o : iobj) (k : key) : iobj :=
+Definition i_seal_key (o : iobj) (k : key) : iobj :=
   match i_getown o k with
   | Some (IProp p) => i_store k (IProp (mkVP (vp_value p) (vp_writable p) false (vp_enumerable p)
                                              (vp_accessor p) (vp_getter p) (vp_setter p))) o
-  | Some (IBare _) => i_define_obj fx k (d_generic (Some false) None) o
+  | Some (IBare _) => i_define_obj k (d_generic (Some false) None) o
   | None => o
   end.
-Definition i_freeze_key (fx : fixes) (o : iobj) (k : key) : iobj :=
+Definition i_freeze_key (o : iobj) (k : key) : iobj :=
   match i_getown o k with
   | Some (IProp p) => i_store k (IProp (mkVP (vp_value p) (if vp_accessor p then vp_writable p else false) false
                                              (vp_enumerable p) (vp_accessor p) (vp_getter p) (vp_setter p))) o
-  | Some (IBare _) => i_define_obj fx k (d_generic (Some false) (Some false)) o
+  | Some (IBare _) => i_define_obj k (d_generic (Some false) (Some false)) o
   | None => o
   end.
-Definition i_seal (fx : fixes) (o : iobj) : iobj :=
-  let o1 := i_ensure (i_prevent o) in fold_left (i_seal_key fx) (i_keys o1) o1.
-Definition i_freeze (fx : fixes) (o : iobj) : iobj :=
-  let o1 := i_ensure (i_prevent o) in fold_left (i_freeze_key fx) (i_keys o1) o1.
+Definition i_seal (o : iobj) : iobj :=
+  let o1 := i_ensure (i_prevent o) in fold_left i_seal_key (i_keys o1) o1.
+Definition i_freeze (o : iobj) : iobj :=
+  let o1 := i_ensure (i_prevent o) in fold_left i_freeze_key (i_keys o1) o1.
 Definition i_all_props (o : iobj) : list iprop :=
   map snd (i_vals o) ++ map snd (i_syms o).
 Definition i_is_sealed (o : iobj) : bool :=
@@ -730,19 +711,19 @@ Definition i_is_frozen (o : iobj) : bool :=
                      | IBare _ => false
                      end) (i_all_props o).
 
-Definition istep (fx : fixes) (h : iheap) (o : op) : iheap * res * list event :=
+Definition istep (h : iheap) (o : op) : iheap * res * list event :=
   let fuel := S (length h) in
   match o with
-  | ODefine o k d => (iupd h o (i_define_obj fx k d), RBool (i_define_ok fx k d (ihget h o)), [])
-  | OSet o k num v r => let '(h', b, ev) := i_set fx h o k num v r in (h', RBool b, ev)
+  | ODefine o k d => (iupd h o (i_define_obj k d), RBool (i_define_ok k d (ihget h o)), [])
+  | OSet o k num v r => let '(h', b, ev) := i_set h o k num v r in (h', RBool b, ev)
   | OGet o k r => let '(v, ev) := i_get fuel h o k r in (h, RVal v, ev)
   | OHas o k => (h, RBool (i_has fuel h o k), [])
   | OGetOwn o k => (h, RDesc (option_map absP (i_getown (ihget h o) k)), [])
   | ODelete o k => (iupd h o (i_delete_obj k), RBool (i_delete_ok k (ihget h o)), [])
   | OKeys o => (iupd h o i_ensure, RKeys (i_keys (ihget h o)), [])
   | OPrevent o => (iupd h o i_prevent, RBool true, [])
-  | OFreeze o => (iupd h o (i_freeze fx), RBool true, [])
-  | OSeal o => (iupd h o (i_seal fx), RBool true, [])
+  | OFreeze o => (iupd h o i_freeze, RBool true, [])
+  | OSeal o => (iupd h o i_seal, RBool true, [])
   | OIsFrozen o => (iupd h o i_ensure, RBool (i_is_frozen (ihget h o)), [])
   | OIsSealed o => (iupd h o i_ensure, RBool (i_is_sealed (ihget h o)), [])
   | OIsExt o => (h, RBool (i_ext (ihget h o)), [])
